@@ -218,6 +218,39 @@ impl Prop for C04 {
             }
         }
         // ---- concurrent stores (writers only): offsets distinct, everything reads back afterwards
+        // the same event submitted again with another signature (schnorr signatures are randomised: two valid copies of
+        // one event differ in their last 64 bytes): whatever the store answers, the id keeps leading to the bytes that
+        // were stored first
+        {
+            let cands: Vec<usize> = w.offsets.values().copied().filter(|i| w.events[*i].kind == 1 && !touched.contains(&w.events[*i].id)).take(3).collect();
+            for i in cands {
+                let Ok(Some(before)) = w.get_by_id(&w.events[i].id) else { continue };
+                let mut m = w.events[i].clone();
+                m.sig = if m.sig.starts_with("5a") { "a5".repeat(64) } else { "5a".repeat(64) };
+                let Ok(copy) = m.to_owned_event() else { continue };
+                let st = w.st();
+                let r = guard("Store::store_event", || st.store_event(&copy));
+                if let Err(f) = r {
+                    out.fail(format!("C04:{}", f.key), f.detail);
+                    return out;
+                }
+                out.label("resubmitted-with-other-signature");
+                match w.get_by_id(&w.events[i].id) {
+                    Ok(Some(after)) if after == before => {}
+                    Ok(other) => {
+                        out.fail(
+                            "C04:lookup-by-id-changed-by-resigned-copy",
+                            format!("{} was stored and never removed; after a copy with the same id and another signature was submitted ({:?}), get_event_by_id returns {}", w.events[i].short(), r.map(|x| x.map_err(|e| e.to_string())), if other.is_some() { "other bytes" } else { "nothing" }),
+                        );
+                        return out;
+                    }
+                    Err(e) => {
+                        out.fail(format!("C04:lookup-error:{e}"), "after a re-signed copy was submitted");
+                        return out;
+                    }
+                }
+            }
+        }
         if c.stress_threads >= 2 {
             out.label("concurrent-stores");
             let mut batches: Vec<Vec<usize>> = Vec::new();
